@@ -89,7 +89,7 @@ func c14Build(tier string) []c14Resp {
 	return set
 }
 
-var c14Kinds = []string{"eof", "eof-with-data", "reset", "timeout"}
+var c14Kinds = []string{"eof", "eof-with-data", "reset", "timeout", "transient"}
 
 const c14WriteRuns = 400
 
@@ -102,7 +102,7 @@ func (c14) NRuns(tier string) int {
 }
 func (c14) Exhaustive(tier string) bool { return true }
 func (c14) Rule() string {
-	return "enumeration: a set of responses (quick 24, thorough 500; up to 260 body bytes, 1..4 packets, drawn from VERIF_SEED) x EVERY byte offset k in 0..len(wire) x failure kind {EOF, EOF returned together with the last bytes, connection reset, timeout error}; plus 400 request-write failures (write j accepts n bytes and fails); PacketReadTimeout in {1,2,5}s and EOF poll cost vary per case; non-trivial = 0<k<len(wire) or a write fault fired; distinct = distinct (response, k, kind); exhaustive over offsets per response set"
+	return "enumeration: a set of responses (quick 24, thorough 500; up to 260 body bytes, 1..4 packets, drawn from VERIF_SEED) x EVERY byte offset k in 0..len(wire) x failure kind {EOF, EOF returned together with the last bytes, connection reset, timeout error, one transient timeout error after which the stream goes on}; plus 400 request-write failures (write j accepts n bytes and fails); PacketReadTimeout in {1,2,5}s and EOF poll cost vary per case; non-trivial = 0<k<len(wire) or a write fault fired; distinct = distinct (response, k, kind); exhaustive over offsets per response set"
 }
 func (c14) Components() map[string]string {
 	return map[string]string{"tds (reader goroutine incl. EOF busy-wait and read timeout, Channel, parsers)": "real (rewritten)", "transport": "stub: simrt.Conn with close/reset/timeout/write-error faults at exact byte offsets", "server": "stub: sim/peer zoo encoders + packetiser", "clock/contexts": "simulated (read timeouts cost no wall time)"}
@@ -193,6 +193,9 @@ func (c14) Run(plan interface{}, schedSeed uint64, replay []simrt.Choice, lenien
 		term = simrt.TermTimeout
 	}
 	cfg := simrt.Config{Seed: schedSeed, Strategy: "uniform", ColdQueueLocks: true, EOFReadCostMs: p.EOFCostMs, MaxSteps: 250000, Replay: replay, Lenient: lenient, KeepLog: keepLog}
+	if p.Kind == "transient" {
+		return c14RunTransient(p, v, cfg, base, pk, wire, drain)
+	}
 	got := runResp(cfg, respDelivery{Packets: pk, TermAt: p.K, TermKind: term, TermWithData: withData, Async: p.Async},
 		respClient{QueueSize: 100, ReadTimeoutS: p.ReadTimeoutS, DrainFor: drain, ReadSizes: c14ReadSizes(p.ReadSize, len(wire)), MaxErrs: 10})
 	out := got.Out
@@ -448,6 +451,48 @@ func pktLens(pk [][]byte) []int {
 }
 
 // c14RunWrite: a transport write fails while the request is being sent.
+// c14RunTransient: ONE read fails with a timeout error after K bytes, then the stream goes on. The library may give
+// up (a prefix, then errors) or recover (the whole response); it may not deliver anything the server did not send.
+func c14RunTransient(p *c14Plan, v *Verdict, cfg simrt.Config, base *respResult, pk [][]byte, wire []byte, drain time.Duration) (*Verdict, *simrt.Outcome) {
+	got := runResp(cfg, respDelivery{Packets: pk, TermAt: -1, Async: p.Async},
+		respClient{QueueSize: 100, ReadTimeoutS: p.ReadTimeoutS, DrainFor: drain, ReadSizes: c14ReadSizes(p.ReadSize, len(wire)), MaxErrs: 10, Transients: []int{p.K}})
+	out := got.Out
+	StdOutcome(v, base.Out)
+	StdOutcome(v, out)
+	if v.Machinery != "" {
+		return v, out
+	}
+	if base.ConnErr != "" || base.SendErr != "" || len(base.Out.Crashes) > 0 || len(errsOnly(base.Recs)) > 0 {
+		v.Machinery = fmt.Sprintf("baseline run failed: %s %s %v %v", base.ConnErr, base.SendErr, base.Out.Crashes, errsOnly(base.Recs))
+		return v, out
+	}
+	where := fmt.Sprintf("one read fails with a timeout error after %d of %d wire bytes (packets %v) of %v, then the stream goes on", p.K, len(wire), pktLens(pk), p.Entries)
+	if out.Budget {
+		v.Budget = false
+		v.Violate("livelock", "the client spins after a transient read error", "%s: after %d scheduler steps the client is still busy", where, out.Steps)
+		return v, out
+	}
+	for _, c := range out.Crashes {
+		v.Violate("panic", "panic "+CrashSig(c), "%s: task %s panicked: %s\n%s", where, c.Task, c.Value, c.Stack)
+	}
+	B, have := pkgsOnly(base.Recs), pkgsOnly(got.Recs)
+	if !isPrefix(have, B) {
+		v.Violate("wrong-packages", "packages the server did not send after a transient read error", "%s: delivered packages are not a prefix of the response: %s", where, firstDiff(B, have))
+	}
+	if out.FaultFired["read-transient-error"] > 0 {
+		v.Probe("transient-error-fired")
+		if len(errsOnly(got.Recs)) == 0 && len(have) < len(B) {
+			v.Violate("no-error", "neither the whole response nor an error after a transient read error", "%s: %d of %d packages delivered and no error reported", where, len(have), len(B))
+		}
+		v.Nontrivial = fmt.Sprintf("%v|%v|%d|transient", p.Entries, p.Cuts, p.K)
+	}
+	if len(have) == len(B) {
+		v.Probe("transient-recovered")
+	}
+	v.Sample = map[string]interface{}{"kind": p.Kind, "k": p.K, "wire": len(wire), "delivered": len(have), "errors": len(errsOnly(got.Recs))}
+	return v, out
+}
+
 func c14RunWrite(p *c14Plan, schedSeed uint64, replay []simrt.Choice, lenient, keepLog bool) (*Verdict, *simrt.Outcome) {
 	v := &Verdict{}
 	cfg := simrt.Config{Seed: schedSeed, Strategy: "uniform", ColdQueueLocks: true, EOFReadCostMs: p.EOFCostMs, Replay: replay, Lenient: lenient, KeepLog: keepLog}
@@ -546,5 +591,5 @@ func c14RunWrite(p *c14Plan, schedSeed uint64, replay []simrt.Choice, lenient, k
 
 // RequiredProbes: a batch in which one of these never fired explored nothing of that kind (exit 2, not a pass).
 func (c14) RequiredProbes() []string {
-	return []string{"kind:eof", "kind:eof-with-data", "kind:reset", "kind:timeout", "kind:write"}
+	return []string{"kind:eof", "kind:eof-with-data", "kind:reset", "kind:timeout", "kind:transient", "kind:write"}
 }
